@@ -32,7 +32,8 @@ def contract(periodic):
     cl = struc.CellList(coord, cell, periodic=periodic, box=box, selection=sel)
     q = rng.uniform(-4, 16, size=(int(rng.integers(1, 6)), 3)).astype(np.float32)
     per_query = rng.random() < 0.5
-    radius = rng.uniform(0.3, 7, size=len(q)) if per_query else float(rng.uniform(0.3, 7))
+    rmax = 6.0 if periodic else 7.0        # periodic: below half the smallest box length (unique minimum image)
+    radius = rng.uniform(0.3, rmax, size=len(q)) if per_query else float(rng.uniform(0.3, rmax))
     if periodic:
         q = struc.move_inside_box(q, box) if False else q
     idx = cl.get_atoms(q, radius)
